@@ -269,6 +269,106 @@ fn run_case(c: &Case, rep: &mut CaseReport) -> Verdict {
     }
 }
 
+// ------------------------------------------------------------------ index atomicity
+
+/// the segment index is replaced atomically: a process death at either step boundary of the index save (flush or
+/// compaction) leaves a file that decodes, is not emptier than it has to be, and names only directories that exist.
+/// (The other invariants are not judged at these crash points while the findings about crashes inside a flush / a
+/// compaction are open; this one does not depend on them: it is read from the file alone, before any restart.)
+#[derive(Clone, Debug, serde::Serialize, serde::Deserialize)]
+pub struct IdxCase {
+    pub epz: usize,
+    pub ff: usize,
+    pub settled: usize,
+    pub renamed: bool,
+    pub nth: u32,
+    pub compact: bool,
+}
+
+fn idx_case_strategy() -> proptest::strategy::BoxedStrategy<IdxCase> {
+    use proptest::prelude::*;
+    (1usize..=2, 1usize..=2, 1usize..=9, any::<bool>(), 1u32..=3, any::<bool>()).prop_map(|(epz, ff, settled, renamed, nth, compact)| IdxCase { epz, ff, settled, renamed, nth, compact }).boxed()
+}
+
+fn run_idx_case(c: &IdxCase, rep: &mut CaseReport) -> Verdict {
+    let case = crate::db::CaseDir::new("c11i");
+    let cfg = crate::db::DbConfig { shard_count: 1, event_per_zone: c.epz, fill_factor: c.ff, segments_per_merge: 2, ..crate::db::DbConfig::default() };
+    let mut db = match Db::open(&case.path, &cfg) {
+        Ok(d) => d,
+        Err(e) => {
+            rep.inconclusive = Some(format!("start: {:?}", e));
+            return Verdict::Discard("start failed".into());
+        }
+    };
+    let idx_path = case.path.join("cols").join("shard-0").join("segments.idx");
+    let read_idx = |p: &Path| -> Result<Vec<(u32, Vec<String>)>, String> {
+        if !p.exists() {
+            return Ok(vec![]);
+        }
+        std::fs::read(p).map_err(|e| e.to_string()).and_then(|b| decode_segments_idx(&b))
+    };
+    let mut k = crate::hist::K_BASE;
+    let mut store = |db: &mut Db| {
+        k += 1;
+        db.cmd(&format!("STORE ta FOR c{} PAYLOAD {{\"k\": {}, \"x\": 1, \"s\": \"a\"}}", k % 2, k))
+    };
+    if db.cmd("DEFINE ta FIELDS { \"k\": \"int\", \"x\": \"int\", \"s\": \"string\" }").is_err() {
+        return Verdict::Discard("define failed".into());
+    }
+    for _ in 0..c.settled {
+        if store(&mut db).is_err() {
+            return Verdict::Discard("store failed".into());
+        }
+    }
+    let _ = db.cmd("FLUSH");
+    if db.barrier().is_err() {
+        return Verdict::Discard("barrier failed".into());
+    }
+    let before = match read_idx(&idx_path) {
+        Ok(b) => b,
+        Err(e) => return Verdict::fail("index-undecodable", json!({"at": "settled", "error": e, "log": db.log})),
+    };
+    let step = if c.renamed { "segidx.renamed" } else { "segidx.tmp_written" };
+    if db.req(json!({"op": "arm_crash", "step": step, "nth": c.nth})).is_err() {
+        return Verdict::Discard("arm failed".into());
+    }
+    // drive index saves until the armed one kills the process
+    'drive: for round in 0..8 {
+        for _ in 0..(c.epz * c.ff).max(1) {
+            if store(&mut db).is_err() {
+                break 'drive;
+            }
+        }
+        if db.cmd("FLUSH").is_err() || db.barrier().is_err() {
+            break 'drive;
+        }
+        if c.compact && round % 2 == 1 && db.compact(0).is_err() {
+            break 'drive;
+        }
+    }
+    if db.alive {
+        return Verdict::Discard("armed step not reached".into());
+    }
+    rep.label(format!("crash-step:{}", step));
+    rep.sub_evals += 1;
+    match read_idx(&idx_path) {
+        Err(e) => Verdict::fail("index-undecodable", json!({"at": format!("after the death at {} (nth {})", step, c.nth), "error": e, "len": std::fs::metadata(&idx_path).map(|m| m.len()).unwrap_or(0), "entries_before": before.len(), "log": db.log})),
+        Ok(now) => {
+            if !before.is_empty() && now.is_empty() {
+                return Verdict::fail("index-undecodable", json!({"at": format!("after the death at {}", step), "error": "the index names no segment although segments were published before", "log": db.log}));
+            }
+            for (id, _) in &now {
+                let d = case.path.join("cols").join("shard-0").join(format!("{:05}", id));
+                if !d.is_dir() {
+                    return Verdict::fail("named-segment-missing", json!({"at": format!("after the death at {}", step), "segment": id, "log": db.log}));
+                }
+            }
+            rep.nontrivial = true;
+            Verdict::Pass
+        }
+    }
+}
+
 pub static TOLERATE_EMPTY_ORPHAN: std::sync::atomic::AtomicBool = std::sync::atomic::AtomicBool::new(false);
 pub static TOLERATE_ID_REUSE: std::sync::atomic::AtomicBool = std::sync::atomic::AtomicBool::new(false);
 
@@ -276,7 +376,13 @@ pub fn is_c11_sig(sig: &str) -> bool {
     matches!(sig, "index-undecodable" | "named-segment-missing" | "named-segment-incomplete" | "segment-id-reused" | "visible-segment-changed")
 }
 
-pub fn replay(_check: &str, case: &Value) -> Verdict {
+pub fn replay(check: &str, case: &Value) -> Verdict {
+    if check == "index-atomicity" {
+        return match serde_json::from_value::<IdxCase>(case.clone()) {
+            Ok(c) => run_idx_case(&c, &mut CaseReport::default()),
+            Err(e) => Verdict::Discard(format!("bad case: {}", e)),
+        };
+    }
     match serde_json::from_value::<Case>(case.clone()) {
         Ok(c) => run_case(&c, &mut CaseReport::default()),
         Err(e) => Verdict::Discard(format!("bad case: {}", e)),
@@ -288,7 +394,7 @@ pub fn run(ctx: &Ctx) -> i32 {
     let mut report = Report::new(
         "C11",
         "fault_enumeration",
-        "the C01 history generator (STORE / FLUSH / compaction / clean restart / SIGKILL / armed crash points); after every command and after every restart a snapshot {decoded segments.idx, live segment list, (len, sha256) of every file of every numeric directory} is taken. Invariants: the index always decodes; every segment named by index or live list exists and is complete (.zones/.idx/.icx + columns per event type); a visible segment's file set and hashes never change; an id that was retired is not used again. Non-trivial: >= 2 lifetimes and >= 3 segments observed.",
+        "the C01 history generator (STORE / FLUSH / compaction / clean restart / SIGKILL / armed crash points); after every command and after every restart a snapshot {decoded segments.idx, live segment list, (len, sha256) of every file of every numeric directory} is taken. Invariants: the index always decodes; every segment named by index or live list exists and is complete (.zones/.idx/.icx + columns per event type); a visible segment's file set and hashes never change; an id that was retired is not used again. Second exploration (index atomicity): a death at either step boundary of the index save of a flush or a compaction, after which segments.idx as it sits on disk must decode, must not have become empty and must name existing directories. Non-trivial: >= 2 lifetimes and >= 3 segments observed.",
     );
     report.assumptions = vec!["observation instants are the gaps between driver commands plus the first instant after every restart".into()];
     replay_known(ctx, &stats, &mut report, &replay);
@@ -309,6 +415,11 @@ pub fn run(ctx: &Ctx) -> i32 {
     let cases = ctx.tier.pick(200, 1200);
     if let Some(f) = explore(ctx, "snapshots", || c01::case_strategy(ctx.tier, cl, 2), Explore { cases, max_shrink_iters: ctx.tier.pick(80, 400), lanes: ctx.lanes }, &stats, run_case) {
         report.violations.push(f);
+    }
+    if report.violations.is_empty() {
+        if let Some(f) = explore(ctx, "index-atomicity", idx_case_strategy, Explore { cases: ctx.tier.pick(48, 400), max_shrink_iters: 60, lanes: ctx.lanes }, &stats, run_idx_case) {
+            report.violations.push(f);
+        }
     }
     finish(ctx, stats.into_inner().unwrap(), report)
 }
